@@ -29,6 +29,7 @@ void StaticVariableManager::create_static_variable(const std::string &name,
     var.is_array = false;
     var.is_assigned = false;
     var.is_multidimensional = false;
+    var.is_unsigned = node->is_unsigned;
 
     // デフォルト値を設定
     if (TypeHelpers::isString(var.type)) {
@@ -44,6 +45,10 @@ void StaticVariableManager::create_static_variable(const std::string &name,
             var.str_value = node->init_expr->str_value;
         } else {
             var.value = interpreter_->evaluate(node->init_expr.get());
+            // unsignedの場合は負の値を0にクランプ（通常の変数初期化と同じ規則）
+            if (var.is_unsigned && var.value < 0) {
+                var.value = 0;
+            }
         }
         var.is_assigned = true;
     }
